@@ -72,10 +72,17 @@ package generator
 //@   requires@C13 builder.GenInv(g) && builder.CtxOK(ctx) && source != nil && target != nil
 //@   assigns nothing
 //@   ensures !(source.Struct && target.Struct) ==> result == nil
+// a method over the pointer variants of this struct pair that carries ANY field-level setting (map, ignore, autoMap,
+// matchIgnoreCase, ignoreMissing, ...) makes generation fail: its settings would be bypassed
+//@   loop@C05 1 invariant forall j int :: 0 <= j && j < idx && overlapping[j] != ctx.Signature ==> fst(g.lookup.Get(overlapping[j], ctx.AvailableContext)) == nil || len(fst(g.lookup.Get(overlapping[j], ctx.AvailableContext)).RawFieldSettings) == 0
 
 // ---- C09 ----
+// C05: field settings on a method whose target is neither a struct nor a pointer to a struct cannot take effect:
+// generation fails (checked for every entry that is passed over)
+//@ pred FieldSettingsOK(m *generatedMethod) bool = !(m.Explicit && len(m.RawFieldSettings) > 0) || m.Target.Struct || (m.Target.Pointer && m.Parameters.Target.PointerInner.Struct)
 //@ func validateMethods
-//@   props C09 C03
+//@   props C09 C03 C05
+//@   loop@C05 3 invariant forall j int :: 0 <= j && j < idx ==> FieldSettingsOK(lookup.Exact[signature][j].Item)
 //@   maprange 1 unordered-result signatures
 // the collected keys are pairwise distinct (map keys); the comparator must decide every such pair
 //@   sortcall 1 total
@@ -152,7 +159,7 @@ package generator
 //@   props C07 C01
 // C01 (F10): when a method gains an error result its signature changes; every method recorded as calling it is
 // marked dirty (generated again), not only the methods on the path it was created through
-//@   loop@C01 2 invariant forall j int :: 0 <= j && j < idx ==> g.lookup.ByID(check.Callers[j]).Dirty
+//@   loop@C01,C07 2 invariant forall j int :: 0 <= j && j < idx ==> g.lookup.ByID(check.Callers[j]).Dirty
 //@   ensures !result1 ==> !old(ctx.Conf.ReturnError) && result0 == nil
 //@   at call jen.Return#* assert arg0[len(arg0)-1] == jen.Code(g.wrap(ctx, errPath, id)) && len(arg0) == ite(current.UpdateTarget, 1, 2)
 //@           && (!current.UpdateTarget ==> arg0[0] == jen.Code(ctx.TargetVar))
@@ -186,6 +193,15 @@ package generator
 //@ func generator.buildMethod
 //@   props C14 C06 C03
 //@   propagates
+// C14: the method is emitted with one parameter per declared argument, in the declared order (the update target
+// stays where it was declared), each with the declared type
+// (method.Parse assigns one of these five roles to every argument)
+//@   requires forall j int :: 0 <= j && j < len(genMethod.RawArgs) ==> genMethod.RawArgs[j].Use == method.ArgUseContext || genMethod.RawArgs[j].Use == method.ArgUseSource
+//@           || genMethod.RawArgs[j].Use == method.ArgUseTarget || genMethod.RawArgs[j].Use == method.ArgUseInterface || genMethod.RawArgs[j].Use == method.ArgUseMultiSource
+//@   loop@C14 1 invariant len(args) == idx
+//@   at@C14 call append#1 assert arg1 == jen.Code(jen.Id(name).Add(arg.Type.TypeAsJen())) && arg.Use == method.ArgUseContext
+//@   at@C14 call append#2 assert arg1 == jen.Code(jen.Id(name).Add(arg.Type.TypeAsJen())) && arg.Use == method.ArgUseSource
+//@   at@C14 call append#3 assert arg1 == jen.Code(jen.Id(name).Add(arg.Type.TypeAsJen())) && arg.Use == method.ArgUseTarget
 //@   requires@C13 builder.GenInv(g) && genMethod != nil && genMethod.Method != nil && genMethod.Method.Definition != nil
 //@   requires@C13 method.ValidID(g.lookup, genMethod.IndexID) && g.lookup.ByID(genMethod.IndexID) == genMethod
 //@   requires@C13 forall j int :: 0 <= j && j < len(genMethod.OriginPath) ==> method.ValidID(g.lookup, genMethod.OriginPath[j])
@@ -200,9 +216,9 @@ package generator
 //@   requires@C13 g != nil && g.conf != nil && m != nil
 //@   assigns nothing
 //@   ensures result != nil
-//@   ensures@C01 m.CustomCall == nil && g.conf.OutputFormat == config.FormatStruct && m.Generated ==> result == jen.Id(xtype.ThisVar).Dot(m.Name)
-//@   ensures@C01 m.CustomCall == nil && g.conf.OutputFormat == config.FormatFunction && m.Generated ==> result == jen.Id(m.Name)
-//@   ensures@C01 m.CustomCall == nil && !(m.Generated && (g.conf.OutputFormat == config.FormatStruct || g.conf.OutputFormat == config.FormatFunction)) ==> result == jen.Qual(m.Package, m.Name)
+//@   ensures@C01,C18 m.CustomCall == nil && g.conf.OutputFormat == config.FormatStruct && m.Generated ==> result == jen.Id(xtype.ThisVar).Dot(m.Name)
+//@   ensures@C01,C18 m.CustomCall == nil && g.conf.OutputFormat == config.FormatFunction && m.Generated ==> result == jen.Id(m.Name)
+//@   ensures@C01,C18 m.CustomCall == nil && !(m.Generated && (g.conf.OutputFormat == config.FormatStruct || g.conf.OutputFormat == config.FormatFunction)) ==> result == jen.Qual(m.Package, m.Name)
 
 // ---- C17/C06: every registration error of a declared method aborts the generation ----
 //@ func setupGenerator
@@ -238,6 +254,10 @@ package generator
 //@   at@C16 call f.Content.HeaderComment#1 assert arg0 == "// Code generated by github.com/jmattheis/goverter, DO NOT EDIT."
 //@   at@C16 call f.Content.HeaderComment#2 assert cfg.BuildConstraint != "" && arg0 == "//go:build " + cfg.BuildConstraint
 //@   at@C16 return assert !ok && cfg.BuildConstraint == "" ==> true
+// every newly created file gets the generated-code header, and the build constraint whenever one is configured
+// (whatever its package is: the constraint is what keeps stale output out of the next run)
+//@   ensures@C16 err == nil && !old(has(m.Files, getOutputDir(conv))) ==> reached("f.Content.HeaderComment#1")
+//@   ensures@C16 err == nil && !old(has(m.Files, getOutputDir(conv))) && cfg.BuildConstraint != "" ==> reached("f.Content.HeaderComment#2")
 
 //@ func Generate
 //@   props C15 C17 C03
